@@ -1840,9 +1840,12 @@ class RTCSctpTransport(AsyncIOEventEmitter):
                     protocol_length,
                 ) = unpack_from("!BBHLHH", data)
                 pos = 12
-                label = data[pos : pos + label_length].decode("utf8")
-                pos += label_length
-                protocol = data[pos : pos + protocol_length].decode("utf8")
+                try:
+                    label = data[pos : pos + label_length].decode("utf8")
+                    pos += label_length
+                    protocol = data[pos : pos + protocol_length].decode("utf8")
+                except UnicodeDecodeError:
+                    return
 
                 # check channel type
                 maxPacketLifeTime = None
@@ -1879,7 +1882,11 @@ class RTCSctpTransport(AsyncIOEventEmitter):
                     channel._setReadyState("open")
         elif pp_id == WEBRTC_STRING and stream_id in self._data_channels:
             # emit message
-            self._data_channels[stream_id].emit("message", data.decode("utf8"))
+            try:
+                message = data.decode("utf8")
+            except UnicodeDecodeError:
+                return
+            self._data_channels[stream_id].emit("message", message)
         elif pp_id == WEBRTC_STRING_EMPTY and stream_id in self._data_channels:
             # emit message
             self._data_channels[stream_id].emit("message", "")
